@@ -19,9 +19,13 @@ struct Row {
     /// expression producing a borrow of `c`
     take: String,
     yields_mut: bool,
+    /// generated from a source scan (a public borrowing method that has no hand-written row): best effort —
+    /// dropped, not an error, if its positive control does not compile
+    auto: bool,
 }
 
 struct Probe {
+    auto: bool,
     id: String,
     row: String,
     pattern: &'static str,
@@ -41,7 +45,7 @@ fn setup(ty: &str) -> &'static str {
 
 fn rows() -> Vec<Row> {
     let mut v = vec![];
-    let mut add = |ty: &'static str, name: &str, take: &str, m: bool| v.push(Row { ty, name: name.to_string(), take: take.to_string(), yields_mut: m });
+    let mut add = |ty: &'static str, name: &str, take: &str, m: bool| v.push(Row { ty, name: name.to_string(), take: take.to_string(), yields_mut: m, auto: false });
     for ty in ["RawLRU", "SegmentedCache", "TwoQueueCache", "AdaptiveCache", "WTinyLFUCache"] {
         add(ty, "get", "c.get(&1)", false);
         add(ty, "get_mut", "c.get_mut(&1)", true);
@@ -96,7 +100,68 @@ fn rows() -> Vec<Row> {
     ] {
         add("SegmentedCache", n, &format!("c.{}()", n), m);
     }
+    let known: BTreeSet<String> = v.iter().map(|r| r.name.clone()).collect();
+    v.extend(auto_rows(&known));
     v
+}
+
+/// public methods of the five cache types that take `&self`/`&mut self`, return something borrowed and have
+/// no hand-written row: a row is generated when the argument list has one of three simple shapes
+fn auto_rows(known: &BTreeSet<String>) -> Vec<Row> {
+    let mut out = vec![];
+    for (f, ty) in [("src/lru/raw.rs", "RawLRU"), ("src/lru/segmented.rs", "SegmentedCache"), ("src/lru/two_queue.rs", "TwoQueueCache"), ("src/lru/adaptive.rs", "AdaptiveCache"), ("src/lfu/wtinylfu.rs", "WTinyLFUCache")] {
+        let text = match std::fs::read_to_string(format!("{}/{}", crate::check::repo_dir(), f)) {
+            Ok(t) => t,
+            Err(_) => continue,
+        };
+        let text = text.split("#[cfg(test)]").next().unwrap_or("").to_string();
+        let mut rest = text.as_str();
+        while let Some(i) = rest.find("pub fn ") {
+            rest = &rest[i + 7..];
+            let name: String = rest.chars().take_while(|c| c.is_alphanumeric() || *c == '_').collect();
+            let sig_end = rest.find('{').unwrap_or(rest.len().min(400));
+            let sig = &rest[..sig_end];
+            let (open, arrow) = match (sig.find('('), sig.find("->")) {
+                (Some(o), Some(a)) => (o, a),
+                _ => continue,
+            };
+            let ret = &sig[arrow..];
+            if !(ret.contains('&') || ret.contains("Iter")) || name.starts_with("verif_") || known.contains(&name) {
+                continue;
+            }
+            // parameter list up to the matching parenthesis
+            let mut depth = 0;
+            let mut close = open;
+            for (j, ch) in sig[open..].char_indices() {
+                match ch {
+                    '(' => depth += 1,
+                    ')' => {
+                        depth -= 1;
+                        if depth == 0 {
+                            close = open + j;
+                            break;
+                        }
+                    }
+                    _ => {}
+                }
+            }
+            let params: Vec<String> = sig[open + 1..close].split(',').map(|p| p.trim().to_string()).filter(|p| !p.is_empty()).collect();
+            let recv = params.first().cloned().unwrap_or_default();
+            if !(recv.starts_with('&') && recv.ends_with("self")) {
+                continue;
+            }
+            let args: Vec<&String> = params.iter().skip(1).collect();
+            let call = match args.len() {
+                0 => format!("c.{}()", name),
+                1 if args[0].contains('&') => format!("c.{}(&1)", name),
+                2 if !args[0].contains('&') && !args[1].contains('&') => format!("c.{}(1, String::new())", name),
+                _ => continue,
+            };
+            let take = if ret.contains('(') && ret.contains("Option<&") && args.len() == 2 { format!("{}.0", call) } else { call };
+            out.push(Row { ty, name: name.clone(), take, yields_mut: ret.contains("&mut") || ret.contains("&'a mut") || ret.contains("IterMut"), auto: true });
+        }
+    }
+    out
 }
 
 const PRELUDE: &str = "#![allow(unused, dropping_references)]\nuse caches::{Cache, ResizableCache};\nfn use_it<T>(_t: T) {}\n";
@@ -133,24 +198,26 @@ fn borrow_probes() -> Vec<Probe> {
         let base = format!("{}pub fn probe() {{\n    {}\n    {}\n", PRELUDE, setup(r.ty), fill());
         // P1: reference held across a mutation / control: used before the mutation
         for (mn, m) in &muts {
-            out.push(Probe { id: String::new(), row: rowname.clone(), pattern: "held_across_mutation", misuse: true, src: format!("{}    let r = {};\n    {}\n    use_it(r);\n}}\n", base, r.take, m) });
+            out.push(Probe { auto: r.auto, id: String::new(), row: rowname.clone(), pattern: "held_across_mutation", misuse: true, src: format!("{}    let r = {};\n    {}\n    use_it(r);\n}}\n", base, r.take, m) });
             if *mn == "put" {
-                out.push(Probe { id: String::new(), row: rowname.clone(), pattern: "held_across_mutation", misuse: false, src: format!("{}    let r = {};\n    use_it(r);\n    {}\n}}\n", base, r.take, m) });
+                out.push(Probe { auto: r.auto, id: String::new(), row: rowname.clone(), pattern: "held_across_mutation", misuse: false, src: format!("{}    let r = {};\n    use_it(r);\n    {}\n}}\n", base, r.take, m) });
             }
         }
         // P2: outliving the cache (scope end / explicit drop)
         out.push(Probe {
+            auto: r.auto,
             id: String::new(),
             row: rowname.clone(),
             pattern: "outlives_cache_scope",
             misuse: true,
             src: format!("{}pub fn probe() {{\n    let r;\n    {{\n        {}\n        {}\n        r = {};\n    }}\n    use_it(r);\n}}\n", PRELUDE, setup(r.ty), fill(), r.take),
         });
-        out.push(Probe { id: String::new(), row: rowname.clone(), pattern: "outlives_cache_drop", misuse: true, src: format!("{}    let r = {};\n    drop(c);\n    use_it(r);\n}}\n", base, r.take) });
-        out.push(Probe { id: String::new(), row: rowname.clone(), pattern: "outlives_cache_drop", misuse: false, src: format!("{}    let r = {};\n    use_it(r);\n    drop(c);\n}}\n", base, r.take) });
+        out.push(Probe { auto: r.auto, id: String::new(), row: rowname.clone(), pattern: "outlives_cache_drop", misuse: true, src: format!("{}    let r = {};\n    drop(c);\n    use_it(r);\n}}\n", base, r.take) });
+        out.push(Probe { auto: r.auto, id: String::new(), row: rowname.clone(), pattern: "outlives_cache_drop", misuse: false, src: format!("{}    let r = {};\n    use_it(r);\n    drop(c);\n}}\n", base, r.take) });
         // P3: two live mutable borrows of the same entry
         if r.yields_mut {
             out.push(Probe {
+                auto: r.auto,
                 id: String::new(),
                 row: rowname.clone(),
                 pattern: "two_live_mutable_borrows",
@@ -160,7 +227,7 @@ fn borrow_probes() -> Vec<Probe> {
         }
         if r.yields_mut {
             // a mutable borrow next to a shared one of the same entry
-            out.push(Probe { id: String::new(), row: rowname.clone(), pattern: "mutable_next_to_shared", misuse: true, src: format!("{}    let a = {};\n    let b = c.peek(&1);\n    use_it(a);\n    use_it(b);\n}}\n", base, r.take) });
+            out.push(Probe { auto: r.auto, id: String::new(), row: rowname.clone(), pattern: "mutable_next_to_shared", misuse: true, src: format!("{}    let a = {};\n    let b = c.peek(&1);\n    use_it(a);\n    use_it(b);\n}}\n", base, r.take) });
         }
     }
     out
@@ -170,7 +237,7 @@ fn marker_probes() -> Vec<Probe> {
     let mut out = vec![];
     let head = format!("{}use std::cell::Cell;\nuse std::rc::Rc;\nfn is_send<T: Send>() {{}}\nfn is_sync<T: Sync>() {{}}\n", PRELUDE);
     let mut add = |row: String, pattern: &'static str, misuse: bool, body: String| {
-        out.push(Probe { id: String::new(), row, pattern, misuse, src: format!("{}pub fn probe() {{\n    {}\n}}\n", head, body) });
+        out.push(Probe { auto: false, id: String::new(), row, pattern, misuse, src: format!("{}pub fn probe() {{\n    {}\n}}\n", head, body) });
     };
     let shared = ["MRUIter", "LRUIter", "KeysMRUIter", "KeysLRUIter", "ValuesMRUIter", "ValuesLRUIter"];
     let mutable = ["MRUIterMut", "LRUIterMut", "ValuesMRUIterMut", "ValuesLRUIterMut"];
@@ -344,12 +411,26 @@ pub fn run(_tier: Tier) -> EngineReport {
     }
     let verdicts: Vec<Result<Verdict, String>> = probes.par_iter().map(|p| compile(&dir, &rlib, &deps, p)).collect();
     let _ = std::fs::remove_dir_all(&dir);
+    // best-effort rows: a generated row whose positive control does not compile is not judged at all
+    let mut unusable_auto: BTreeSet<String> = BTreeSet::new();
+    for (p, v) in probes.iter().zip(verdicts.iter()) {
+        if p.auto && !p.misuse {
+            if let Ok(v) = v {
+                if !v.compiled {
+                    unusable_auto.insert(p.row.clone());
+                }
+            }
+        }
+    }
     let mut per_pattern: BTreeMap<String, (u64, u64)> = BTreeMap::new();
     let mut code_hist: BTreeMap<String, u64> = BTreeMap::new();
     let mut rows_seen: BTreeSet<String> = BTreeSet::new();
     for (p, v) in probes.iter().zip(verdicts.iter()) {
         rep.evaluations += 1;
         rows_seen.insert(p.row.clone());
+        if p.auto && unusable_auto.contains(&p.row) {
+            continue;
+        }
         let e = per_pattern.entry(format!("{}{}", p.pattern, if p.misuse { "" } else { " (control)" })).or_insert((0, 0));
         e.0 += 1;
         let v = match v {
@@ -371,6 +452,8 @@ pub fn run(_tier: Tier) -> EngineReport {
                     case: json!({"engine": "probes", "row": p.row, "pattern": p.pattern, "source": p.src}),
                     count: 1,
                 });
+            } else if p.auto && !v.codes.iter().any(|c| EXPECTED.contains(&c.as_str())) {
+                // generated template does not fit this method
             } else if !v.codes.iter().any(|c| EXPECTED.contains(&c.as_str())) {
                 if rep.machinery_errors.len() < 3 {
                     rep.machinery_errors.push(format!("probe {} / {} fails for an unrelated reason ({:?}: {}); the template is broken\n{}", p.row, p.pattern, v.codes, v.first_error, p.src));
@@ -387,8 +470,10 @@ pub fn run(_tier: Tier) -> EngineReport {
             e.1 += 1;
         }
     }
-    let known: BTreeSet<String> = rows().iter().map(|r| r.name.clone()).collect();
+    let all_rows = rows();
+    let known: BTreeSet<String> = all_rows.iter().map(|r| r.name.clone()).collect();
     let unprobed = unprobed_methods(&known);
+    let auto_used: Vec<String> = all_rows.iter().filter(|r| r.auto).map(|r| format!("{}::{}{}", r.ty, r.name, if unusable_auto.contains(&format!("{}::{}", r.ty, r.name)) { " (template did not fit; not judged)" } else { "" })).collect();
     for u in &unprobed {
         eprintln!("[C19] note: public method {} returns a borrow but has no row in the probe matrix", u);
     }
@@ -398,6 +483,7 @@ pub fn run(_tier: Tier) -> EngineReport {
         "rows": rows_seen.len(), "probes": probes.len(), "misuse_probes": probes.iter().filter(|p| p.misuse).count(),
         "per_pattern_(probes, as_expected)": per_pattern, "rustc_error_codes_seen": code_hist, "expected_codes": EXPECTED,
         "public_borrowing_methods_without_a_row": unprobed,
+        "rows_generated_from_the_source_scan": auto_used,
     });
     rep
 }
@@ -407,7 +493,7 @@ pub fn replay_case(case: &serde_json::Value) -> Vec<Finding> {
     let deps = std::path::Path::new(&rlib).parent().map(|p| p.to_string_lossy().to_string()).unwrap_or_default();
     let dir = format!("{}/target/probes-replay-{}", crate::check::verif_dir(), std::process::id());
     let _ = std::fs::create_dir_all(&dir);
-    let p = Probe { id: "replay".into(), row: case["row"].as_str().unwrap_or("").to_string(), pattern: "replay", misuse: true, src: case["source"].as_str().unwrap_or("").to_string() };
+    let p = Probe { auto: false, id: "replay".into(), row: case["row"].as_str().unwrap_or("").to_string(), pattern: "replay", misuse: true, src: case["source"].as_str().unwrap_or("").to_string() };
     let v = compile(&dir, &rlib, &deps, &p);
     let _ = std::fs::remove_dir_all(&dir);
     match v {
